@@ -69,6 +69,10 @@ type Profile struct {
 	AppID            string
 	CellW, CellH     int // pixel size of a cell (for size reports)
 
+	// AbsentModeReply is the DECRPM status sent for one of the optional modes (2026, 2027,
+	// 2031, 2048) that this terminal does not implement: 0 "not recognised" (default) or
+	// 4 "permanently reset" - recognised, can never be set; both mean: do not use it.
+	AbsentModeReply int
 	NoCPR          bool   // never answers DSR 6
 	NoDECRQM       bool   // silent on DECRQM instead of answering 0
 	NoXTGETTCAP    bool   // silent on unknown XTGETTCAP instead of answering 0+r
@@ -111,6 +115,9 @@ func (p Profile) String() string {
 	}
 	if s == "" {
 		s = "none"
+	}
+	if p.AbsentModeReply != 0 {
+		s += fmt.Sprintf("/absent-modes-answer-%d", p.AbsentModeReply)
 	}
 	return fmt.Sprintf("%s/v%d/cur%d,%d/cs%d", s, p.Version, p.InitRow, p.InitCol, p.UserCursorStyle)
 }
